@@ -212,12 +212,12 @@ theorem evalTxn_steps {P : Params} {x : Ctx} {l l' : Layer} {g : List Txn} {t : 
           exact Steps.tx _ (applyTxn_steps h1)
 
 theorem groupLoop_steps {P : Params} {x : Ctx} {g : List Txn} {g0 : Nat} :
-    ∀ (ts : List Txn) (i : Nat) (l l' : Layer), groupLoop P x g g0 i l ts = .ok l' → Steps x l l' := by
+    ∀ (ts : List Txn) (used i : Nat) (l l' : Layer), groupLoop P x g g0 used i l ts = .ok l' → Steps x l l' := by
   intro ts
   induction ts with
-  | nil => intro i l l' h; cases h; exact Steps.refl _
+  | nil => intro used i l l' h; cases h; exact Steps.refl _
   | cons t r ih =>
-    intro i l l' h
+    intro used i l l' h
     unfold groupLoop at h
     split at h
     · cases h
@@ -226,7 +226,9 @@ theorem groupLoop_steps {P : Params} {x : Ctx} {g : List Txn} {g0 : Nat} :
       · cases h
       · split at h
         · cases h
-        · exact (evalTxn_steps h1).trans (ih _ _ _ h)
+        · split at h
+          · cases h
+          · exact (evalTxn_steps h1).trans (ih _ _ _ _ h)
 
 /-! ## invariants kept along `Steps` -/
 
